@@ -353,10 +353,34 @@ pub fn run(ctx: &Ctx) -> Report {
                 }
             }
         }
+        // ---- (3) bulk copies that run past the end of a strict stream: the copy must fail, and the
+        // reader must not hand out non-existent bits afterwards (shared with C08) ----
+        if ctx.tier != Tier::Tiny {
+            use super::c08::{check_overshoot, Path};
+            let pres: Vec<Vec<ROp>> = vec![vec![], vec![ROp::Read(1)], vec![ROp::Read(w.min(64) - 1)], vec![ROp::Read(w.min(64))], vec![ROp::Read(3), ROp::Peek(kind.peek_limit().min(w))]];
+            for nw in [2usize, 3, 5] {
+                let img = super::readhist::random_image(&mut rng, crate::rng::Pattern::Ones, nw * wb, e);
+                for pre in &pres {
+                    for over in 1..=(w + 2) {
+                        if !thorough && over > 4 && over < w - 2 && (over + nw) % 5 != 0 {
+                            continue;
+                        }
+                        for (pi, path) in Path::ALL.iter().enumerate() {
+                            let be = RBackend::STRICT[(over + pi + nw) % RBackend::STRICT.len()];
+                            let ww = WWord::ALL[(over + pi) % 5];
+                            check_overshoot("C09", RCfg { e, kind, be }, &img, pre, ww, over, *path, rep);
+                        }
+                    }
+                }
+            }
+        }
         let _ = diag::describe;
     })
 }
 
 pub fn replay(case: &str, rep: &mut Report) {
+    if case.starts_with("overshoot=") {
+        return super::c08::replay(case, rep);
+    }
     check_case(&Case::from_kv(case), rep);
 }
